@@ -219,8 +219,11 @@ def check_strings(rep, prog):
     stubs = {"m:is_match": lambda s_, x_: s_[0] == x_, "m:is_partial_match": lambda s_, x_: s_[0] != x_ and s_[0] % 100000 == x_ % 100000,
              "call:" + TR + "TraceString.is_match": lambda s_, x_: s_[0] == x_,
              "call:" + TR + "TraceString.is_partial_match": lambda s_, x_: s_[0] != x_ and s_[0] % 100000 == x_ % 100000}
+    import collections
+    TS_ = collections.namedtuple("TraceString", ["hash_value", "message_format"])      # (the attributes of a trace string object)
     lists = [[], [(5, "a")], [(5, "a"), (100005, "b"), (7, "c"), (5, "d"), (200005, "e")], [(300007, "p"), (100007, "q"), (7, "r"), (200007, "s")],
              [(92602121, "x"), (92702121, "y"), (2121, "z"), (92602121, "w")]]
+    lists = [[TS_(*x_) for x_ in l_] for l_ in lists]
     bad = None
     ran = 0
     try:
@@ -234,7 +237,8 @@ def check_strings(rep, prog):
                 want = ex_[0] if ex_ else (pa_[-1] if pa_ else None)
                 ran += 1
                 if got != want and bad is None:
-                    bad = "hash %d in the string list %s finds %r, documented %r (first exact match, else the LAST partial match)" % (hv, strs, got, want)
+                    bad = "hash %d in the string list %s finds %r, documented %r (first exact match, else the LAST partial match)" % (
+                        hv, [tuple(s_) for s_ in strs], tuple(got) if got is not None else None, tuple(want) if want is not None else None)
     except CannotEval:
         ran = 0
     if ran:
@@ -339,6 +343,11 @@ def check_strings_rest(rep, prog, rule, h):
         N = news[0]
         Lf = N.loops[-1]
         line = Op("elem", Lf.iter, Lf.idx)
+        # (the loop may run over something derived from the file - map(RE.fullmatch, file): the text line is the element of
+        # the file itself)
+        flines = [x for x in walk(N.guard) if isinstance(x, Op) and x.op == "elem" and isinstance(x.args[0], Op) and x.args[0].op == "file"]
+        if flines and not (isinstance(Lf.iter, Op) and Lf.iter.op == "file"):
+            line = flines[0]
         import re as _re
         ref = _re.compile(r'\s*([0-9]+)\s*\|\|(.*)\|\|(.*)\n?')
         samples = ["92602121||I> ADT7470: trace_level = %u||adt7470_fan_ctl.cpp(926)\n", "  7 || a || b || c.cpp(1) \n", "12||x||y", "12||only\n",
